@@ -401,6 +401,9 @@ def misfit_class(info):
 def judge(ctx, info, err, where, exact):
     """raise the property-level violation for a rule whose identities fail"""
     ok = err <= info["tol"]
+    ctx.inc("rules_judged")
+    if max(info["orders"]) >= 2:
+        ctx.inc("higher_order_rules_judged")
     if not ok and info.get("ill") and info.get("user"):
         ctx.inc("user_shift_rules_numerically_singular_skipped")      # precondition of the statement: the user's shifts must determine a rule
         return
@@ -680,7 +683,8 @@ def run(tier, seed):
     if __import__("os").environ.get("VERIF_DEBUG"):
         for v in ctx.viol:
             print("DEBUG", v.key, "|", v.detail[:200])
-    if c.get("lattice_rules_with_exact_phases", 0) < 50 or c.get("higher_order_rules_exact", 0) < 20 or c.get("replay_nontrivial", 0) < 8:
+    if c.get("lattice_rules_with_exact_phases", 0) < 50 or c.get("higher_order_rules_judged", 0) < 20 or c.get("replay_rules_applied_to_exact_values", 0) < 30 \
+            or (not ctx.viol and (c.get("higher_order_rules_exact", 0) < 20 or c.get("replay_nontrivial", 0) < 8)):
         raise lib.MachineryError(f"vacuity: {c}")
     if c.get("negative_controls_rejected", 0) < 6:
         raise lib.MachineryError("negative controls missing")
